@@ -89,6 +89,10 @@ def handle (st : St) (ws : List String) : Option (St × String) :=
       let s := tick { s with now := s.now + nat! dt }
       let (s, out) := flush s
       pure ({ st with s := some s }, out)
+  | ["s.restart"] => do
+      let s ← st.s
+      let (s, out) := flush (restart s)
+      pure ({ st with s := some s }, out)
   | ["s.enq", hex] => do
       let s ← st.s
       let b ← parseHex hex
